@@ -124,6 +124,10 @@ theorem netRecv_spec (n : Nat) : ∀ (s : List NEv),
 
 /-! ## `recv_size` -/
 
+/-- the exception a fault shows up as INSIDE a method before its handlers run: what the socket raised, or - for a
+    `socket.timeout` - any class the `except socket.timeout` clause catches all the same (the module's `Timeout`) -/
+def FaultAs (flt e : Exc) : Prop := e = flt ∨ (flt = .sockTimeout ∧ e = .timeout)
+
 abbrev RsFr := Fr (BufferedSocket.St Int) (BufferedSocket.recv_size.L Int) NW
 
 /-- what the result of the model's loop says about the outcome of the generated loop started with object state `self0`,
@@ -134,7 +138,7 @@ def RsLoopPost (self0 : BufferedSocket.St Int) (size0 : Int) (flt : Exc) (mr : R
   | .fuel => o.1 = .exc .outOfFuel
   | .tooLong => False
   | .closed => o.1 = .exc .connectionClosed ∧ join o.2.loc.chunks = mr.2.rbuf ∧ er o.2.w.script = mr.2.script
-  | .timeout => o.1 = .exc flt ∧ join o.2.loc.chunks = mr.2.rbuf ∧ er (settle o.2.w) = mr.2.script
+  | .timeout => (∃ e, o.1 = .exc e ∧ FaultAs flt e) ∧ join o.2.loc.chunks = mr.2.rbuf ∧ er (settle o.2.w) = mr.2.script
   | .ok bs => o.1 = .next ∧ er o.2.w.script = mr.2.script ∧ WInv o.2.w ∧
       bs = join o.2.loc.chunks ++
         (if o.2.loc.total_bytes - o.2.loc.size ≠ 0 then sliceTo o.2.loc.nxt (-(o.2.loc.total_bytes - o.2.loc.size)) else o.2.loc.nxt) ∧
@@ -181,10 +185,15 @@ theorem rs_loop (J : Int) (rs size : Nat) (tmo : Option Int) (hto : TOk J tmo) (
     subst ha hnx hsc
     rw [recvSizeLoop]
     by_cases hn : s.loc.nxt = []
-    · simp [Blk.whileLoop, BufferedSocket.recv_size.loop1.cond, BufferedSocket.recv_size.loop1.orelse, truthy, hn,
+    · have hcf : BufferedSocket.recv_size.loop1.cond (mnet J) lf s = false := by
+        simp [BufferedSocket.recv_size.loop1.cond, truthy, len, hn]
+      simp [Blk.whileLoop, hcf, BufferedSocket.recv_size.loop1.orelse, hn,
         RsLoopPost, Blk.seq, Blk.assign, Blk.raise]
     · have hc : BufferedSocket.recv_size.loop1.cond (mnet J) lf s = true := by
-        simp [BufferedSocket.recv_size.loop1.cond, truthy, hn]
+        have hlenI : (0 : Int) < (s.loc.nxt.length : Int) := by
+          have := List.length_pos_iff.mpr hn
+          omega
+        simp [BufferedSocket.recv_size.loop1.cond, truthy, len, hn, hlenI]
       by_cases hge : total + s.loc.nxt.length ≥ size
       · -- `break`
         have hx2 : ((total : Int) + (s.loc.nxt.length : Int) - (size : Int))
@@ -215,7 +224,7 @@ theorem rs_loop (J : Int) (rs size : Nat) (tmo : Option Int) (hto : TOk J tmo) (
             have hle : t - J ≤ 0 := by have := hto.2; omega
             simp [h5, h2, h3, h4, len, hge, hltI, hn, mnet_truthy_some, mnet_time, mnet_fsub, mnet_fle, mnet_fzero,
               Blk.call, Blk.raise, ht0, hlate, hle, unwrap,
-              RsLoopPost, hr, er, NEv.ev, sockRecv, rawFault, join_snoc, settle]
+              RsLoopPost, FaultAs, hr, er, NEv.ev, sockRecv, rawFault, join_snoc, settle]
         · have hchk : (mnet J).truthyOpt tmo = false ∨ (s.w.late = false ∧ ∃ t, tmo = some t ∧ 0 < t) := by
             cases tmo with
             | none => simp [mnet_truthy_none]
@@ -257,11 +266,11 @@ theorem rs_loop (J : Int) (rs size : Nat) (tmo : Option Int) (hto : TOk J tmo) (
             obtain ⟨w', hw1, hw2, hw3⟩ := hspec
             subst hw2
             rcases hchk with hno | ⟨hlate, t, rfl, htpos⟩
-            · simp [h5, h2, h3, h4, len, hge, hltI, hn, hno, Blk.call, mnet_recv, h1, hw1, RsLoopPost, join_snoc, settle, hw3]
+            · simp [h5, h2, h3, h4, len, hge, hltI, hn, hno, Blk.call, mnet_recv, h1, hw1, RsLoopPost, FaultAs, join_snoc, settle, hw3]
             · have hnle : ¬ t ≤ 0 := by omega
               have ht0 : t ≠ 0 := by omega
               simp [h5, h2, h3, h4, len, hge, hltI, hn, mnet_truthy_some, mnet_time, mnet_fsub, mnet_fle, mnet_fzero,
-                mnet_settimeout, Blk.call, mnet_recv, h1, hw1, hlate, ht0, hnle, unwrap, RsLoopPost, join_snoc, settle, hw3]
+                mnet_settimeout, Blk.call, mnet_recv, h1, hw1, hlate, ht0, hnle, unwrap, RsLoopPost, FaultAs, join_snoc, settle, hw3]
 
 /-- more fuel changes nothing once the model's loop has an answer -/
 theorem recvSizeLoop_mono (rs size : Nat) : ∀ (n : Nat) (acc : Bytes) (total : Nat) (nxt : Bytes) (script : List Ev),
@@ -388,12 +397,16 @@ theorem src_recv_size_eq_model (J : Int) (cfg : Cfg) (st : BufferedSocket.St Int
           · simp [finishMethod, outcome, Blk.seq, Blk.assign, Blk.raise, Exc.isSockTimeout, Exc.isException, k1, k4, hrs]
           · simp [scriptAfter, k5]
         | timeout =>
-          obtain ⟨k3, k4, k5⟩ := k3
+          obtain ⟨⟨e, k3, kf⟩, k4, k5⟩ := k3
           subst k3
           refine ⟨F'.w, ?_, ?_⟩
           · rcases hraw with ⟨ha, hb2⟩ | ⟨t, ha, hb2⟩
-            · simp [finishMethod, outcome, Blk.seq, Blk.assign, Blk.raise, Exc.isSockTimeout, Exc.isException, k1, k4, hrs, ha, hb2, hb]
-            · simp [finishMethod, outcome, Blk.seq, Blk.assign, Blk.raise, Exc.isSockTimeout, Exc.isException, k1, k4, hrs, ha, hb2, hb]
+            · rcases kf with kf | ⟨_, kf⟩ <;> subst kf <;>
+                simp [finishMethod, outcome, Blk.seq, Blk.assign, Blk.raise, Exc.isSockTimeout, Exc.isException, k1, k4, hrs, ha, hb2, hb]
+            · rcases kf with kf | ⟨kf0, _⟩
+              · subst kf
+                simp [finishMethod, outcome, Blk.seq, Blk.assign, Blk.raise, Exc.isSockTimeout, Exc.isException, k1, k4, hrs, ha, hb2, hb]
+              · rw [ha] at kf0; cases kf0
           · simp [scriptAfter, k5]
         | ok bs =>
           obtain ⟨k3, k4, k5, k6, k7⟩ := k3
@@ -436,12 +449,16 @@ theorem src_recv_size_eq_model (J : Int) (cfg : Cfg) (st : BufferedSocket.St Int
         · simp [finishMethod, outcome, Blk.seq, Blk.assign, Blk.raise, Exc.isSockTimeout, Exc.isException, k1, k4, hrs]
         · simp [scriptAfter, k5]
       | timeout =>
-        obtain ⟨k3, k4, k5⟩ := k3
+        obtain ⟨⟨e, k3, kf⟩, k4, k5⟩ := k3
         subst k3
         refine ⟨F'.w, ?_, ?_⟩
         · rcases hraw with ⟨ha, hb2⟩ | ⟨t, ha, hb2⟩
-          · simp [finishMethod, outcome, Blk.seq, Blk.assign, Blk.raise, Exc.isSockTimeout, Exc.isException, k1, k4, hrs, ha, hb2]
-          · simp [finishMethod, outcome, Blk.seq, Blk.assign, Blk.raise, Exc.isSockTimeout, Exc.isException, k1, k4, hrs, ha, hb2]
+          · rcases kf with kf | ⟨_, kf⟩ <;> subst kf <;>
+              simp [finishMethod, outcome, Blk.seq, Blk.assign, Blk.raise, Exc.isSockTimeout, Exc.isException, k1, k4, hrs, ha, hb2]
+          · rcases kf with kf | ⟨kf0, _⟩
+            · subst kf
+              simp [finishMethod, outcome, Blk.seq, Blk.assign, Blk.raise, Exc.isSockTimeout, Exc.isException, k1, k4, hrs, ha, hb2]
+            · rw [ha] at kf0; cases kf0
         · simp [scriptAfter, k5]
       | ok bs =>
         obtain ⟨k3, k4, k5, k6, k7⟩ := k3
@@ -473,10 +490,6 @@ example : ∃ w', BufferedSocket.recv_size (mnet 100) 10 ⟨[1], [], 10, some 5,
 /-! ## `recv_until` -/
 
 abbrev RuFr := Fr (BufferedSocket.St Int) (BufferedSocket.recv_until.L Int) NW
-
-/-- the exception a fault shows up as INSIDE a method before its handlers run: what the socket raised, or - for a
-    `socket.timeout` - any class the `except socket.timeout` clause catches all the same (the module's `Timeout`) -/
-def FaultAs (flt e : Exc) : Prop := e = flt ∨ (flt = .sockTimeout ∧ e = .timeout)
 
 theorem findFrom_eq_findIdx (d : Bytes) : ∀ xs : Bytes, findFrom d xs = findIdx d xs := by
   intro xs
